@@ -23,6 +23,10 @@ func (c *Client) metricsInc(ctx context.Context, delta queryMetrics) {
 		return
 	}
 
+	// Metrics are updated both by sending and receiving goroutines of query.
+	c.metricsMux.Lock()
+	defer c.metricsMux.Unlock()
+
 	v.Bytes += delta.Bytes
 	v.Rows += delta.Rows
 	v.RowsReceived += delta.RowsReceived
